@@ -624,6 +624,9 @@ class TrainRun:
             if link.get("global_step") is not None:
                 gs = link["global_step"]  # e.g. a fresh run (global_step=0) that re-uses the buffer of an earlier one
                 self.res.fault("restart_counter_with_reused_state")
+            if self.calls:
+                for name in getattr(self.adapter, "internal_comps", ()):
+                    self.comps.pop(name, None)  # re-created inside the next call; observed again from their first record_epoch
             self.start_step = gs
             self.steps_at_call = self.env.n_steps
             self.steps_at_call_all = sum(e.n_steps for e in self.sub_envs())
